@@ -109,6 +109,7 @@ structure LS (src : Bytes) (al : BP → Bool) (k ls : Nat) (sA sB : St) : Prop w
   c : CtxRelL sA.pc sB.pc
   a : AInv al sA.pc sA.nodes
   strict : sA.pc.opened ≠ [] → sB.pc.blockOffset = sA.pc.blockOffset ∧ sB.pc.blockIndent = sA.pc.blockIndent
+  f : FEc al sA.nodes sB.nodes
 
 theorem blockquoteContinue_marker {src k ls} (hl : LineAt src k ls) {sB : St}
     (hb : RI (quotePrefix src) sB.r ⟨k, ls + 2 * k, 0⟩) :
